@@ -155,7 +155,7 @@ fn permutations(n: usize) -> Vec<Vec<usize>> {
 }
 
 /// Genuine-only lists: every subset in every order (|G| <= 4) or issuance / reverse / rotations (larger).
-fn genuine_lists(n: usize) -> Vec<Vec<usize>> {
+pub fn genuine_lists(n: usize) -> Vec<Vec<usize>> {
     let mut out = vec![];
     for mask in 0u32..(1 << n) {
         let idx: Vec<usize> = (0..n).filter(|i| mask & (1 << i) != 0).collect();
